@@ -149,6 +149,10 @@ func (p *propC10) Gen(idx int) *Scenario {
 	case 3:
 		sc.Family = "single+junk-header-like"
 		top.Tail = "0e10" + hexs(r.Bytes(r.Range(0, 40)))
+		if r.Chance(1, 2) {
+			sc.Family = "single+zero-padding"
+			top.Tail = strings.Repeat("00", r.Range(1, 70))
+		}
 	case 4:
 		sc.Family = "single+valid-file-tail"
 		e := pick()
